@@ -9,6 +9,7 @@ import (
 	"encoding/binary"
 	"fmt"
 	"os"
+	"sort"
 
 	rt "github.com/cloudspannerecosystem/memefish/verifsimrt"
 )
@@ -31,6 +32,7 @@ type refTable struct {
 	// rareSites: the sites executed by 2..64 operations (contention mode "rare-site")
 	siteList  [][]int32
 	rareSites []int32
+	heavyOps  []int32
 }
 
 // per-process site statistics of the solo executions
@@ -58,6 +60,34 @@ func (t *refTable) steps(k opKey) (int64, bool) {
 		return 0, false
 	}
 	return t.e[i].steps, true
+}
+
+// heavy returns the 2 % most expensive operations (by solo yields, at most 3 M yields).
+func (t *refTable) heavy() []int32 {
+	if t.heavyOps != nil {
+		return t.heavyOps
+	}
+	idx := make([]int32, 0, len(t.e))
+	for i, e := range t.e {
+		if e.have && e.steps <= 3_000_000 {
+			idx = append(idx, int32(i))
+		}
+	}
+	sort.Slice(idx, func(a, b int) bool {
+		if t.e[idx[a]].steps != t.e[idx[b]].steps {
+			return t.e[idx[a]].steps > t.e[idx[b]].steps
+		}
+		return idx[a] < idx[b]
+	})
+	n := len(idx) / 50
+	if n < 8 {
+		n = len(idx)
+		if n > 8 {
+			n = 8
+		}
+	}
+	t.heavyOps = idx[:n]
+	return t.heavyOps
 }
 
 // poolFingerprint identifies the pool (inputs, paths, op list).
@@ -252,6 +282,13 @@ func loadRefs(paths []string) (*refTable, []refConflict, error) {
 	for i, l := range t.siteList {
 		if len(l) >= 2 && i < len(t.siteOps) && t.siteOps[i] <= 2*siteListCap {
 			t.rareSites = append(t.rareSites, int32(i))
+			if i < len(rt.SiteClass) && rt.SiteClass[i]&16 != 0 {
+				// rare AND in a function that mentions a package-level variable: the prime
+				// suspects for shared state behind a threshold - eight times the weight
+				for k := 0; k < 7; k++ {
+					t.rareSites = append(t.rareSites, int32(i))
+				}
+			}
 		}
 	}
 	return t, conflicts, nil
